@@ -14,6 +14,7 @@ type CacheEr interface {
 
 // name2Value
 type name2Value struct {
+	groupObj   string // 所属对象(结构体路径/切片下标), either/botheq 只在同一个对象内成组
 	validName  string
 	objName    string
 	fieldName  string
@@ -58,10 +59,12 @@ func (v *validCommon) initValid2FieldsMap(data *name2Value) {
 	if v.valid2FieldsMap == nil {
 		v.valid2FieldsMap = make(map[string][]*name2Value, 5)
 	}
-	if _, ok := v.valid2FieldsMap[data.validName]; !ok {
-		v.valid2FieldsMap[data.validName] = make([]*name2Value, 0, 2)
+	// 按 "所属对象 + 规则" 分组, 不同的对象(切片元素/嵌套结构体/map 元素)互不影响
+	groupKey := data.groupObj + "\x00" + data.validName
+	if _, ok := v.valid2FieldsMap[groupKey]; !ok {
+		v.valid2FieldsMap[groupKey] = make([]*name2Value, 0, 2)
 	}
-	v.valid2FieldsMap[data.validName] = append(v.valid2FieldsMap[data.validName], data)
+	v.valid2FieldsMap[groupKey] = append(v.valid2FieldsMap[groupKey], data)
 }
 
 // either 判断两者不能都为空
@@ -141,8 +144,8 @@ func (v *validCommon) valid(errBuf *strings.Builder) {
 		return
 	}
 
-	for validName, fieldInfos := range v.valid2FieldsMap {
-		validKey, _, _ := ParseValidNameKV(validName)
+	for _, fieldInfos := range v.valid2FieldsMap {
+		validKey, _, _ := ParseValidNameKV(fieldInfos[0].validName)
 		switch validKey {
 		case Either:
 			v.either(errBuf, fieldInfos)
